@@ -65,4 +65,9 @@ Spec == Init /\ [][Next]_vars
 Cheaper == gh + LenLo(pos, Recs[k].dst) < claim
 ValidRoute == ok
 NoShorterRoute == ~(pos = Recs[k].dst /\ gh < claim)
+\* reachability only (the antecedent "an obstacle-free path exists" of C03): unbounded search, violated iff reachable
+ReachInit == /\ k \in 1..Len(Recs) /\ pos = Recs[k].src /\ prev = NoPt /\ gh = 0 /\ ok = TRUE /\ claim = 0
+ReachMove(v) == /\ Visible(k, pos, v) /\ pos' = v /\ UNCHANGED <<k, prev, gh, claim, ok>>
+ReachSpec == ReachInit /\ [][\E v \in Corners(k) \cup {Recs[k].dst} : ReachMove(v)]_vars
+NotReached == pos # Recs[k].dst
 =============================================================================
